@@ -144,10 +144,16 @@ def observe_state(w, uid):
     return 'stateless'
 
 
-def step(w, uid, ctx, action):
+def step(w, uid, ctx, action, embedded=False):
+    """embedded: the same item followed by a Create in one Continue batch - whatever a refused
+    operation did to the object in memory, a later item's commit must not make it real."""
     version, item = ACTIONS[action](uid, ctx)
     W.CLOCK.advance(1)
-    r = w.do(version, item)
+    if embedded:
+        r = w.do(version, [item, W.p_create(W.sym_attrs(masks=[CUM.ENCRYPT]))],
+                 error_option=E.BatchErrorContinuationOption.CONTINUE)
+    else:
+        r = w.do(version, item)
     return r.items[0]
 
 
@@ -180,19 +186,25 @@ def explore(kind, variant, masks, part):
         while frontier:
             s = frontier.pop(0)
             ws, path = seen[s]
-            for action in ACTION_NAMES:
+            for action, embedded in [(a, e) for a in ACTION_NAMES for e in (False, True)]:
                 w = ws.clone()
                 worlds.append(w)
                 W.CLOCK.now = W.T0 + 10 + len(path)
-                item = step(w, uid, ctx, action)
+                item = step(w, uid, ctx, action, embedded)
                 after = observe_state(w, uid)
                 part.count('transitions')
                 part.counters.setdefault('_edges', set()).add((kind, s, action, after, item.ok()))
                 for b in judge(kind, mask_names, action, s, after, item):
-                    key = "%s|%s|%s|%s" % (kind, _mask_class(action, mask_names), s, b)
-                    part.violation(key, "%s with masks %s: %s (answer: %s)" % (
-                        kind, variant, b, item.brief()),
-                        {'kind': kind, 'variant': variant, 'path': path + [action]})
+                    key = "%s|%s|%s|%s%s" % (kind, _mask_class(action, mask_names), s, b,
+                                             '|in-batch' if embedded else '')
+                    part.violation(key, "%s with masks %s: %s (answer: %s)%s" % (
+                        kind, variant, b, item.brief(),
+                        ' [sent as the first item of a Continue batch, followed by a Create]' if embedded else ''),
+                        {'kind': kind, 'variant': variant, 'path': path + [action], 'embedded': embedded})
+                if embedded:
+                    w.close()
+                    worlds.remove(w)
+                    continue
                 if after not in seen:
                     seen[after] = (w, path + [action])
                     frontier.append(after)
@@ -311,7 +323,7 @@ def replay(doc):
         lines, anybad = [], False
         for i, action in enumerate(doc['path']):
             W.CLOCK.now = W.T0 + 10 + i
-            item = step(w, uid, ctx, action)
+            item = step(w, uid, ctx, action, bool(doc.get("embedded")) and i == len(doc["path"]) - 1)
             after = observe_state(w, uid)
             bad = judge(doc['kind'], [m.name for m in masks], action, state, after, item)
             lines.append("%s --%s--> %s : %s %s" % (state, action, after, item.brief(), bad or ''))
